@@ -163,6 +163,7 @@ def enumerated(tier, seed):
                 for d in range(118, 137):
                     for forward in (True, False):
                         yield nested_many(mo, m, far, d, forward)
+                        yield nested_many(mo, m, far, d, forward, inner_ind=True, outer_ind=(d % 2 == 0))
     # 7. two crossing PCR statements (forward one followed by a backward one), both near the limit
     for ma, mb in (("LEAX", "LEAY"), ("LDA", "LDY"), ("LDY", "LDA")):
         for n1 in range(112, 130):
@@ -190,13 +191,13 @@ def nested2(mo, mi, g1, g2, g3, dirs):
     return dict(org=0x0300, items=items)
 
 
-def nested_many(mo, m, far, d, forward):
+def nested_many(mo, m, far, d, forward, inner_ind=False, outer_ind=False):
     """outer statement spans m inner PCR statements; d = bytes between outer and its target assuming the inner
     statements take their final size (far: 4 bytes each, near: 3 bytes each)"""
     inner_size = 4 if far else 3
     gap = max(0, d - m * inner_size)
-    inner = [dict(t="pcr", mn="LEAY", ind=False, to="FAR" if far else "NEAR", k=0) for _ in range(m)]
-    outer = dict(t="pcr", mn=mo, ind=False, to="TGT", k=0)
+    inner = [dict(t="pcr", mn="LEAY", ind=inner_ind, to="FAR" if far else "NEAR", k=0) for _ in range(m)]
+    outer = dict(t="pcr", mn=mo, ind=outer_ind, to="TGT", k=0)
     items = [dict(t="nop", label="NEAR")]
     if forward:
         items += [outer] + inner + fill(gap, 0) + [dict(t="nop", label="TGT")]
